@@ -264,18 +264,6 @@ func (e *Engine) buildScript(decls, facts []string, goal string, negate bool) st
 		}
 	}
 	scan(body)
-	var b strings.Builder
-	needStr := false
-	var ls []string
-	for l := range needLits {
-		ls = append(ls, l)
-	}
-	sort.Strings(ls)
-	for _, l := range ls {
-		for _, d := range e.litDefs[l] {
-			b.WriteString(d + "\n")
-		}
-	}
 	// global axioms (assumptions of the contract library) are included when every spec
 	// function they mention is already part of the query
 	var globalAx []string
@@ -288,7 +276,20 @@ func (e *Engine) buildScript(decls, facts []string, goal string, negate bool) st
 			}
 		}
 		if ok {
+			scan(t)
 			globalAx = append(globalAx, "(assert "+t+")\n")
+		}
+	}
+	var b strings.Builder
+	needStr := false
+	var ls []string
+	for l := range needLits {
+		ls = append(ls, l)
+	}
+	sort.Strings(ls)
+	for _, l := range ls {
+		for _, d := range e.litDefs[l] {
+			b.WriteString(d + "\n")
 		}
 	}
 	var specText strings.Builder
